@@ -44,11 +44,17 @@ pub struct Case {
     /// fees up to ~2^60
     #[serde(default)]
     pub fee_shift: u8,
+    /// the first `late_start` blocks after genesis are produced by another node (key 1, through its
+    /// own producer); the node under test produces its first block afterwards - possibly when the
+    /// window has just wrapped and its funds still sit in the genesis block
+    #[serde(default)]
+    pub late_start: u8,
 }
 
 #[derive(Debug, Default)]
 pub struct Info {
     pub produced: usize,
+    pub late_start_blocks: usize,
     pub not_produced: usize,
     pub nontrivial_blocks: usize,
     pub with_atr: usize,
@@ -84,6 +90,57 @@ pub fn run_case(case: &Case) -> (Vec<(String, String)>, Info) {
     }
     let _ = guarded_add(&mut peer, g.clone(), 64);
     let me = key(0);
+    if case.late_start > 0 {
+        // another honest producer builds the first blocks
+        let mut q = Node::new(case.ncfg, 1);
+        let _ = guarded_add(&mut q, g.clone(), 64);
+        for i in 0..case.late_start as u64 {
+            let (_, tip_hash) = q.tip();
+            let tip_ts = match q.chain.get_latest_block() {
+                Some(b) => b.timestamp,
+                None => break,
+            };
+            // past the producer's anti-fork delay (up to 5 s, derived from its key and the tip)
+            let ts = tip_ts + 5_000 + 2 * case.ncfg.heartbeat;
+            if !staking {
+                let c = carrier_tx(&key(1), ts);
+                block_on(q.mempool.add_transaction_if_validates(c, &q.chain));
+            } else {
+                // with staking the producer wants a pooled transaction: key 2 pays a small fee
+                let (tip_id, _) = q.tip();
+                let mut reserved = BTreeSet::new();
+                let plan = TxPlan { payer: 2, payee: 3, amount: 1_000, fee: 1_000, max_inputs: 1, ts };
+                if let Some(t) = build_honest_tx(&q, &plan, tip_id + 3, &mut reserved) {
+                    block_on(q.mempool.add_transaction_if_validates(t, &q.chain));
+                }
+            }
+            if density_needs_gt(&q) || i % 2 == 0 {
+                if let Some(gt) = block_on(q.mine_gt(tip_hash, &key(2), 9_000 + i)) {
+                    block_on(q.mempool.add_golden_ticket(gt));
+                }
+            }
+            let gt_result = q.mempool.golden_tickets.get(&tip_hash).map(|(t, _)| t.clone());
+            let blk = match catch(|| block_on(q.mempool.bundle_block(&q.chain, ts, gt_result, &q.cfg, &q.storage))) {
+                Outcome::Returned(Some(b)) => b,
+                other => {
+                    if std::env::var("VERIF_TRACE").is_ok() {
+                        eprintln!("late start block {i}: the other producer did not build a block: {:?}", other.panicked());
+                    }
+                    return (v, info); // the other producer is not this check's subject
+                }
+            };
+            let a = guarded_add(&mut q, blk.clone(), 256).0;
+            let b = guarded_add(&mut p, blk.clone(), 256).0;
+            if std::env::var("VERIF_TRACE").is_ok() {
+                eprintln!("late start block {i}: id {} on q {:?} on p {:?}", blk.id, a.name(), b.name());
+            }
+            let _ = guarded_add(&mut peer, blk, 256);
+            if !matches!(a, StepOutcome::Result("added_lc")) || !matches!(b, StepOutcome::Result("added_lc")) {
+                return (v, info);
+            }
+            info.late_start_blocks += 1;
+        }
+    }
 
     for (ri, r) in case.rounds.iter().enumerate() {
         if let (Some(sel), false) = (r.peer_conflict, staking) {
@@ -331,6 +388,9 @@ fn eval(c: &mut Ctx, case: &Case, counting: bool) -> Vec<(String, String)> {
         if case.ncfg.heartbeat >= 5000 {
             c.class("heartbeat_5000");
         }
+        if info.late_start_blocks > 0 {
+            c.class("first_own_block_after_another_producers_run(window_edge)");
+        }
         if case.fee_shift > 0 {
             c.class("amounts_and_fees_up_to_2^60");
         }
@@ -366,8 +426,9 @@ pub fn arb_case(max_rounds: usize) -> impl Strategy<Value = Case> {
         prop_oneof![2 => Just(0u64), 1 => 1_000_000u64..1_000_000_000_000u64],
         proptest::collection::vec(arb_round(), 2..max_rounds),
         prop_oneof![4 => Just(0u8), 1 => Just(30u8)],
+        prop_oneof![6 => Just(0i8), 1 => Just(-1i8), 1 => Just(0i8 + 100), 1 => Just(101i8)],
     )
-        .prop_map(|(gp, heartbeat, social_stake, treasury, rounds, fee_shift)| Case {
+        .prop_map(|(gp, heartbeat, social_stake, treasury, rounds, fee_shift, late)| Case {
             ncfg: NodeCfg {
                 gp,
                 heartbeat,
@@ -379,6 +440,8 @@ pub fn arb_case(max_rounds: usize) -> impl Strategy<Value = Case> {
             issuance: [(0u8, 900_000_000u64), (0, 800_000_000), (0, 50_000_000), (1, 500_000_000), (2, 600_000_000), (3, 70_000_000), (1, 3_000), (2, 40)].iter().map(|(k, a)| (*k, a << fee_shift)).collect(),
             rounds,
             fee_shift,
+            // 0, or gp-1 / gp / gp+1 blocks by another producer first (only with short windows)
+            late_start: if late == 0 || gp > 12 { 0 } else { (gp as i64 + (late as i64 - 100).clamp(-1, 1)) as u8 },
         })
 }
 
